@@ -1068,7 +1068,10 @@ impl Shadow {
                 self.f_clean = true;
                 self.in_q2.clear();
                 if let Outcome::Reqs(list) = &obs.outcome {
+                    // EventLoop::clean: what the state held goes in front of what was still waiting
+                    let waiting = std::mem::take(&mut self.pending);
                     self.pending.extend(list.iter().cloned());
+                    self.pending.extend(waiting);
                 }
             }
             _ => {}
@@ -1370,8 +1373,16 @@ fn step_window(rng: &mut Rng, sh: &mut Shadow) -> String {
     }
 }
 
-/// next request of the pending list as an op (`out repub …` / `out pubrel …`)
-fn replay_head(sh: &mut Shadow) -> Option<String> {
+/// next request of the pending list as an op (`out repub …` / `out pubrel …`); with `respect` a
+/// head without a packet id is taken only while the window is open (the loop's `pending_ready`)
+fn replay_head(sh: &mut Shadow, respect: bool) -> Option<String> {
+    if respect {
+        if let Some(Req::Publish(PubC { pkid: 0, .. })) = sh.pending.front() {
+            if !(sh.inf < sh.limit && !sh.col) {
+                return None;
+            }
+        }
+    }
     while let Some(r) = sh.pending.pop_front() {
         match r {
             Req::Publish(PubC { q, pkid, tag: Some(tag), alias }) => {
@@ -1394,7 +1405,7 @@ fn step_resume(rng: &mut Rng, sh: &mut Shadow, just_cleaned: bool) -> String {
         }
         match rng.weighted(&[70, 15, 4, 5]) {
             0 => {
-                if let Some(op) = replay_head(sh) {
+                if let Some(op) = replay_head(sh, true) {
                     return op;
                 }
                 step_window(rng, sh)
@@ -1474,7 +1485,7 @@ fn step_hostile(rng: &mut Rng, sh: &mut Shadow, prev_in: &Option<String>) -> Str
 
 fn step_ungated(rng: &mut Rng, sh: &mut Shadow) -> String {
     if !sh.pending.is_empty() && rng.chance(2, 5) {
-        if let Some(op) = replay_head(sh) {
+        if let Some(op) = replay_head(sh, false) {
             return op;
         }
     }
@@ -1537,7 +1548,7 @@ fn clean_and_replay(run: &mut Run) {
     if !run.op("clean") {
         return;
     }
-    while let Some(op) = replay_head(&mut run.sh) {
+    while let Some(op) = replay_head(&mut run.sh, true) {
         if !run.op(&op) {
             return;
         }
@@ -1590,7 +1601,7 @@ fn random_case(w: &mut dyn Write, st: &mut Stats, rng: &mut Rng, kind: &'static 
                 }
             }
             // finish a replay that is under way
-            while let Some(op) = replay_head(&mut run.sh) {
+            while let Some(op) = replay_head(&mut run.sh, true) {
                 if !run.op(&op) {
                     break;
                 }
@@ -1694,8 +1705,15 @@ fn corpus(w: &mut dyn Write, st: &mut Stats) {
     scripted(w, st, "corpus-f22".into(), "corpus", true, 3, &["in publish 2 9 1 t -", "in pubrel 9 146", "in pubrel 9 0"]);
     // #23: session not resumed, last_puback stale
     scripted(w, st, "corpus-f23".into(), "corpus", false, 3, &["out pub 1 1", "out pub 1 2", "out pub 1 3", "in puback 1 0", "in puback 2 0", "out pub 1 4", "clean", "drop", "out pub 1 5", "out pub 1 6", "out pub 1 7", "clean"]);
-    // loop-level observation (cloop slice): nested failure reorders pending
-    scripted(w, st, "corpus-nested-fail".into(), "corpus", false, 3, &["out pub 1 1", "out pub 1 2", "clean", "out repub 1 1 1", "clean", "out repub 1 2 2", "out repub 1 1 1"]);
+    // second failure before the unnumbered publish returned by clean() was replayed: the loop puts what the
+    // state held in front of it, so it is still numbered after the releases it collides with and parks again
+    scripted(w, st, "corpus-f24".into(), "corpus", false, 3, &["out pub 2 1", "in pubrec 1 0", "out pub 2 2", "in pubrec 2 0", "out pub 1 3", "in puback 3 0", "out pub 1 4", "clean", "out pubrel 1", "out pubrel 2", "clean", "out pubrel 1", "out pubrel 2", "out repub 1 0 4", "in pubcomp 2 0", "in pubcomp 1 0", "in puback 2 0"]);
+    // the same with the loop order of before that repair (not what the loop does any more: judged as an ungated trace)
+    scripted(w, st, "corpus-f24-old-order".into(), "corpus", false, 3, &["out pub 2 1", "in pubrec 1 0", "out pub 2 2", "in pubrec 2 0", "out pub 1 3", "in puback 3 0", "out pub 1 4", "clean", "out pubrel 1", "out pubrel 2", "clean", "out repub 1 0 4", "out pubrel 1", "out pubrel 2"]);
+    // the parked publish comes back from clean() last and unnumbered, and is parked / sent again on replay
+    scripted(w, st, "corpus-parked-replay".into(), "corpus", true, 2, &["out pub 1 1", "out pub 1 2", "in puback 2 0", "out pub 1 3", "clean", "out repub 1 1 1", "out repub 1 0 3", "in puback 1 0", "in puback 2 0"]);
+    // nested failure: the retransmission already replayed goes in front of the one still waiting
+    scripted(w, st, "corpus-nested-fail".into(), "corpus", false, 3, &["out pub 1 1", "out pub 1 2", "clean", "out repub 1 1 1", "clean", "out repub 1 1 1", "out repub 1 2 2"]);
     scripted(w, st, "corpus-alias".into(), "corpus", true, 3, &["in publish 1 5 9 e 7", "in publish 0 0 10 t 7", "in publish 0 0 11 e 7"]);
     scripted(w, st, "corpus-f4-v5".into(), "corpus", true, 3, &f4);
     scripted(w, st, "corpus-f11-v5".into(), "corpus", true, 3, &f11);
